@@ -271,6 +271,20 @@ def directed_sequences():
     return out
 
 
+def unknown_character_sources():
+    """a character that is no part of the token grammar (any non-ASCII character outside strings and comments: letters, digits,
+    blanks, symbols of other scripts) next to every kind of token: a lexical error wherever it stands (round 6: C11-7, identifiers
+    continued with unicode.IsLetter / IsDigit)"""
+    chars = ["\u00e9", "\uff12", "\u00df", "\u03a9", "\u00a0", "\u4e2d", "\u0661", "\u00aa", "\u00b2", "\u20ac", "\u2028", "\u0301", "\U0001d7d8", "\u00c9"]
+    forms = ["x%s := 1\n", "%sx := 1\n", "x := 1%s\n", "x := 1 %s\n", "x := true%s\n", "print(x)%s\n", "x %s y\n", "var%s x int\n", "x := y%s + 1\n", "%s\n",
+             "x := 12%s3\n", "_t%s\n", "x := nil%s\n", "func f%s() {\n}\n", "x := \"s\"%s\n", "x.%sy\n", "@ls%s()\n", "/* c */%s\n", "x := `r`%s\n"]
+    out = []
+    for f in forms:
+        for c in chars:
+            out.append((f % c).encode("utf-8"))
+    return out
+
+
 INTERESTING = b" \t\n\r\"`\\/*-+=!<>&|:;.,(){}[]@%019azAZ_xu\xc3\xa9\xff\x00"
 
 
